@@ -256,3 +256,28 @@ if not_empty e
   n = n + 1;
 end if;
 ''')
+prog('nested_invocations', '''
+x = ::Function(P1: ::Function(P1: 1, P2: 2), P2: 3);
+::Function(P1: Class::Class_Based_Operation(P1: x, P2: ::Function(P1: 4, P2: 5)), P2: 6);
+create object instance c of Class;
+y = c.Instance_Based_Operation(P1: ::Function(P1: x, P2: c.Instance_Based_Operation(P1: 7, P2: 8)), P2: 9);
+''')
+prog('const_same_name', '''
+p = My_Constants::PI;
+q = Other_Constants::PI;
+if q > Other_Constants::PI - My_Constants::PI
+  q = Other_Constants::PI + Other_Constants::TAU;
+end if;
+''')
+prog('select_chain_classes', '''
+select any o from instances of Other_Class;
+select one k related by o->Class[R2];
+select many ls related by o->Class[R2]->Assoc[R1.'one'];
+select any l related by o->Class[R2]->Assoc[R1.'other'];
+select many ks related by o->Class[R2]->Assoc[R1.'one']->Class[R1.'one'];
+for each kk in ks
+  select many oo related by kk->Other_Class[R2];
+end for;
+k2 = k;
+ls2 = ls;
+''')
